@@ -511,7 +511,11 @@ fn run_history(h: &mut History, ncalls: usize, tags: &mut Tags, out: &mut Out, s
                 let v = h.rng.chance(1, 2);
                 let callee = if bad { h.pick_graph(c, v) } else {
                     let older: Vec<GraphH> = h.graphs.iter().filter(|x| x.c == c && x.graph.get_id() < gid && x.graph.get_output_node().is_ok()).cloned().collect();
-                    if older.is_empty() { h.pick_graph(c, true) } else { Some(older[h.rng.below(older.len() as u64) as usize].clone()) }
+                    // sometimes a finalized graph of the same context that is NOT older than the caller
+                    // (with well-typed arguments): must be refused and leave the context unchanged
+                    let younger: Vec<GraphH> = h.graphs.iter().filter(|x| x.c == c && x.graph.get_id() > gid && x.graph.get_output_node().is_ok()).cloned().collect();
+                    if !younger.is_empty() && h.rng.chance(1, 3) { Some(younger[h.rng.below(younger.len() as u64) as usize].clone()) }
+                    else if older.is_empty() { h.pick_graph(c, true) } else { Some(older[h.rng.below(older.len() as u64) as usize].clone()) }
                 };
                 if let Some(cg) = callee {
                     // arguments: try to match the callee's input types
